@@ -46,8 +46,10 @@ func (g *generator) pure(i int) (string, pureIn) {
 		return "mergeparent", g.genMergeParent()
 	case k < 70:
 		return "parse", g.genParse()
-	case k < 85:
+	case k < 80:
 		return "rangeop", g.genRangeOp()
+	case k < 87:
+		return "classcache", g.genCache()
 	default:
 		return "ressat", g.genResSat()
 	}
@@ -780,6 +782,9 @@ func (g *generator) sharedTree(r *gen.Rand, cl []classSpec) *node {
 		if t == n-2 && !overSeen {
 			kind = 1
 		}
+		if len(c.Cts) == 0 && (kind == 1 || kind == 2) { // a reloaded template may constrain nothing
+			kind = 3
+		}
 		var over []cst
 		switch kind {
 		case 0: // plain: only the template's constraints apply
@@ -827,7 +832,9 @@ func indexOf(xs []string, x string) int {
 // sharedSpec: a descriptor case or a round (with pair: two consecutive rounds on one core) over
 // shared classes. The agents offer every (zone, kind) combination the roles may end up asking for,
 // with ample resources, so that the constraints alone decide the placement.
-func (g *generator) sharedSpec(mode string, pair bool) simSpec {
+func (g *generator) sharedSpec(mode string, pair bool) simSpec { return g.sharedSpecX(mode, pair, false) }
+
+func (g *generator) sharedSpecX(mode string, pair bool, reload bool) simSpec {
 	r := g.rShared
 	mkClass := func() classSpec {
 		c := classSpec{Mode: r.Pick([]string{"basic", "direct"}), Cpu: 100, Mem: 64000}
@@ -874,5 +881,94 @@ func (g *generator) sharedSpec(mode string, pair bool) simSpec {
 	if pair {
 		sp.Prelude = &simIn{Mode: mode, Tree: g.sharedTree(r, cl), Agents: agents}
 	}
+	if reload {
+		// the prelude loads the classes as they are, this spec a later version of each
+		sp.Prelude = &simIn{Mode: mode, Tree: g.sharedTree(r, cl), Agents: agents}
+		var later []classSpec
+		for _, c := range cl {
+			n := g.changedClass(r, c)
+			if r.Chance(1, 3) {
+				n = g.changedClass(r, n)
+			}
+			later = append(later, n)
+		}
+		sp.Tree = g.sharedTree(r, later)
+		sp.Reload = true
+	}
 	return sp
+}
+
+// reloadSpec: a round (or descriptor case) on classes that were loaded, used by a round, and then
+// reloaded under the same identifiers with changed constraints / channels / wants.
+func (g *generator) reloadSpec(mode string) simSpec { return g.sharedSpecX(mode, false, true) }
+
+// ---------------------------------------------------------------- class cache histories
+
+// changedClass returns a later version of a template: mostly changed only where a careless
+// "is it the same class?" test would not look (constraints, channels), sometimes in cpu, memory,
+// static ports or control mode, sometimes not at all.
+func (g *generator) changedClass(r *gen.Rand, c classSpec) classSpec {
+	n := c
+	n.Cts = append([]cst{}, c.Cts...)
+	n.Bind = append([]chn{}, c.Bind...)
+	switch r.Intn(9) {
+	case 0, 1: // constraints only
+		if len(n.Cts) > 0 {
+			i := r.Intn(len(n.Cts))
+			vs := attrVals[n.Cts[i].A]
+			n.Cts[i].V = vs[(indexOf(vs, n.Cts[i].V)+1)%len(vs)]
+		} else {
+			n.Cts = []cst{{A: "zone", V: r.Pick(attrVals["zone"])}}
+		}
+	case 2: // a constraint dropped / added
+		if len(n.Cts) > 0 && r.Chance(1, 2) {
+			n.Cts = n.Cts[1:]
+		} else {
+			n.Cts = append(n.Cts, cst{A: "rack", V: r.Pick(attrVals["rack"])})
+		}
+	case 3, 4: // channels only
+		if len(n.Bind) > 0 && r.Chance(1, 2) {
+			n.Bind = n.Bind[:len(n.Bind)-1]
+		} else {
+			n.Bind = append(n.Bind, chn{Name: "c5", Tcp: r.Chance(3, 4)})
+		}
+	case 5: // constraints and channels
+		n.Cts = []cst{{A: "zone", V: r.Pick(attrVals["zone"])}, {A: "kind", V: r.Pick(attrVals["kind"])}}
+		n.Bind = []chn{{Name: "c3", Tcp: true}}
+	case 6: // wants
+		if r.Chance(1, 2) {
+			n.Cpu = c.Cpu + 100
+		} else {
+			e := "9010-9012"
+			n.Expr, n.Intended = &e, [][2]uint64{{9010, 9012}}
+		}
+	case 7:
+		if c.Mode == "basic" {
+			n.Mode = "direct"
+		} else {
+			n.Mode = "basic"
+		}
+	}
+	return n
+}
+
+func (g *generator) genCache() pureIn {
+	r := g.rShared
+	var in pureIn
+	latest := map[int]classSpec{}
+	for i, n := 0, r.Range(1, 6); i < n; i++ {
+		k := r.Intn(3)
+		if i > 0 && r.Chance(1, 2) {
+			k = in.CacheOps[r.Intn(len(in.CacheOps))].Key // reload of an identifier already there
+		}
+		c, seen := latest[k]
+		if seen {
+			c = g.changedClass(r, c)
+		} else {
+			c = g.genClass(r, 2)
+		}
+		latest[k] = c
+		in.CacheOps = append(in.CacheOps, cacheOp{Key: k, Class: c})
+	}
+	return in
 }
